@@ -862,7 +862,9 @@ impl Command for SubrunCmd {
         let env = Env::new(None, None, Some(ctx.env.halt.clone()));
         match runner::run_script(&text, context, Some(env)) {
             Ok(_) => CommandResult::Continue(None),
-            Err(e) => CommandResult::Error(e.to_string()),
+            // (the nested script cannot fail by itself: this is the harness's step budget ending the run - pass it on
+            // as what it is, or the outer run would survive its own budget)
+            Err(e) => CommandResult::Crash(e.to_string()),
         }
     }
 }
